@@ -43,9 +43,32 @@ var profiles = map[string]Profile{
 		W: map[string]int{"set": 40, "rm": 16, "save": 14, "rollback": 2, "reopen": 3, "prune": 3, "proofs": 12}},
 	"C03e": {Name: "C03e", MinOps: 6, MaxOps: 25, Keys: 5, EmptyVals: true, ObsEvery: 0,
 		W: map[string]int{"set": 40, "rm": 10, "save": 14, "proofs": 12}},
+	// C15: change sets: repeated keys inside a version, set-then-remove, identical rewrites, no-op versions
+	"C15": {Name: "C15", MinOps: 12, MaxOps: 50, Keys: 6, EmptyVals: true, ObsEvery: 0,
+		Initials: []int64{-1, -1, 1, 7},
+		W: map[string]int{"set": 40, "rm": 20, "save": 18, "rollback": 2, "reopen": 3, "prune": 3, "changes": 12, "savecs": 5, "replaycs": 3}},
+	// C05: crash points of commits, deletions, rollbacks and index builds, small flush thresholds
+	"C05": {Name: "C05", MinOps: 8, MaxOps: 30, Keys: 8, EmptyVals: true, ObsEvery: 0, ToggleFast: true,
+		Initials: []int64{-1, -1, 7},
+		W: map[string]int{"set": 45, "rm": 15, "save": 4, "crashsave": 14, "crashprune": 6, "crashlvfo": 4, "crashreopen": 3, "rollback": 2, "reopen": 2}},
+	// C17: storage faults at every call position
+	"C17": {Name: "C17", MinOps: 8, MaxOps: 30, Keys: 8, EmptyVals: false, ObsEvery: 0,
+		Initials: []int64{-1, -1, 7},
+		W: map[string]int{"set": 45, "rm": 15, "save": 6, "faults": 8, "faultsave": 8, "faultprune": 4, "rollback": 2, "reopen": 2}},
 	// C08: iterators over every kind of tree state
 	"C08": {Name: "C08", MinOps: 8, MaxOps: 40, Keys: 9, EmptyVals: true, ObsEvery: 0,
 		W: map[string]int{"set": 40, "rm": 18, "save": 10, "rollback": 2, "reopen": 3, "iters": 25}},
+}
+
+// wrapped configurations (recording / counting / fault injection): MemDB below the wrapper
+func wrapConfigs(r *rand.Rand, n int, flushes []int) []string {
+	var out []string
+	for i := 0; i < n; i++ {
+		c := Config{Cache: []int{0, 3, 1000}[r.Intn(3)], Fast: r.Intn(2) == 0, Flush: flushes[r.Intn(len(flushes))],
+			Backend: "memdb", Wrap: true}
+		out = append(out, c.String())
+	}
+	return out
 }
 
 func configsFor(r *rand.Rand, tier string, n int) []string {
@@ -235,7 +258,14 @@ func m1gen(name string) func(r *rand.Rand, tier, id string) Case {
 		if name == "C11" {
 			p.Order = []string{"asc", "desc", "alt", ""}[r.Intn(4)]
 		}
-		return genM1(r, p, id)
+		c := genM1(r, p, id)
+		if name == "C17" {
+			c.Cfgs = wrapConfigs(r, 1, []int{400, 100000})
+		}
+		if name == "C05" {
+			c.Cfgs = wrapConfigs(r, 1, []int{200, 300, 400, 1000, 100000})
+		}
+		return c
 	}
 }
 
